@@ -757,6 +757,7 @@ Proof.
   - (* OUnalias *) destruct (r_alias r) eqn:E; tgo.
   - (* OFuncDef *) destruct (r_funcs r) eqn:E; tgo; unfold rinv; simpl; rewrite ?E; auto.
   - (* OSetOpt *) tgo; unfold rinv; auto.
+  - (* OSetString *) tgo.
   - (* OCallBegin *)
     eapply triple_bind; [eauto with trip|solve [intros; mo]|]. intros p _.
     eapply triple_bind; [apply triple_o_alloc; intros ? ? [= <- _]; exact He|solve [intros; mo]|]. intros e Oe.
